@@ -15,7 +15,7 @@ PROP = dict(
             {"bin": "pure", "name": "pure", "n": {"quick": 1500, "thorough": 20000},
              "args": ["DifficultyToPlasma", "GetDifficultyForPlasma", "FussedAmountToPlasma"]}],
     rule="pow: difficulties from boundary classes (0..3, 2^k-1..2^k+1, 2^63+-2, 2^64-3.., around MaxDifficulty, random over the full range) x random nonces with the real SHA3 digest, plus crafted digests at threshold-2..threshold+2 through the real comparison; "
-         "plasma: histories on a real node, candidate user sends (plain transfers with 0/1/10/100/300/1000/MaxDataLength-1/MaxDataLength/MaxDataLength+1 data bytes, valid calls of embedded methods of the cost classes 52500/73500/94500/105000, calls without a base cost) with fused plasma in {0, 1, base-1, base, base-pow, base-pow-1, avail, avail+1, cap+-1, random} around the base cost computed by the harness from the dumped method table / data length x difficulty {0, valid PoW, claimed without work} x unhashed fields BasePlasma/TotalPlasma left empty or preset by the sender to {0, 1, real-1, real, real+1, 21000, max, fused} x delivery through Supervisor.ApplyBlock / ChainBridge.AddAccountBlocks (gossip) / ledger.publishRawTransaction (JSON); "
+         "plasma: histories on a real node, candidate user sends (plain transfers with 0/1/10/100/300/1000/MaxDataLength-1/MaxDataLength/MaxDataLength+1 data bytes, valid calls of embedded methods of the cost classes 52500/73500/94500/105000, calls without a base cost, user receive blocks of what is waiting for the account) with fused plasma in {0, 1, base-1, base, base-pow, base-pow-1, avail, avail+1, cap+-1, random} around the base cost computed by the harness from the dumped method table / data length x difficulty {0, valid PoW, claimed without work} x unhashed fields BasePlasma/TotalPlasma left empty or preset by the sender to {0, 1, real-1, real, real+1, 21000, max, fused} x delivery through Supervisor.ApplyBlock / ChainBridge.AddAccountBlocks (gossip) / ledger.publishRawTransaction (JSON); "
          "pool histories: sequences of 3..7 unconfirmed blocks of one account between two momentums (accounts with 10.5M, with 21000..170000 plasma), the first one or two over-paying with fused plasma far above their base cost (with and without PoW), the others around what is left; the account's committed / uncommitted chain plasma read from the real stores after every candidate and replayed on the model (pool_trace); a case is distinct by (function, input); non-trivial = not tagged trivial",
     explanation="Theorems: the byte comparison is numeric >=; CheckPoWNonce accepts iff digest >= 2^64 - floor(2^64/d) for every d in [1,2^64); an accepted block has base <= total = fused + powPlasma <= cap and fused <= plasma(fused QSR) - plasma of unconfirmed blocks; by induction over any candidate sequence the pool never over-commits (C12_pool_accounting), also after every single step of it (C12_pool_trace_bounded), an accepted candidate books exactly its fused plasma and a refused one nothing (C12_pool_trace_step). "
                 "Modelled: pow.getTargetByDifficulty/greaterDifficulty/CheckPoWNonce, vm.DifficultyToPlasma/FussedAmountToPlasma/AvailablePlasma/enoughPlasma, account.AddChainPlasma, verifier pow(). The base cost is modelled too (vm.GetBasePlasmaForAccountBlock; the per-method costs are dumped from the real method tables on every run). SHA3 and whether the called method exists under the acknowledged spork regime enter as observed inputs. Tier A (regenerated from source by go2coq on every run and proved EQUAL to the hand-written model: C12_*_is_the_source): getTargetByDifficulty, greaterDifficulty, DifficultyToPlasma, FussedAmountToPlasma, AvailablePlasma and enoughPlasma (store reads, GetBasePlasmaForAccountBlock, IsEmbeddedAddress and the result of AddChainPlasma are inputs of the translations; the ARGUMENT handed to AddChainPlasma is an output of the translation: C12_enough_plasma_is_the_source states that it is the block's FusedPlasma on the accepting path and that nothing is booked on a refusing one) and the addition of accountStore.AddChainPlasma (chain/account/plasma.go, C12_booked_amount_is_the_source); C12_source_accept_sound states the three conditions of the property and the booked amount directly about the translated enoughPlasma. "
